@@ -35,14 +35,15 @@ def md5(s):
     return hashlib.md5(s).hexdigest()[:16]
 
 
-def mk_message(ids, nbytes_data=64, mtv=33, centre=0, subcentre=0, ltv=0, nsub=1):
-    """edition-4 message, uncompressed, all-zero data section"""
+def mk_message(ids, nbytes_data=64, mtv=33, centre=0, subcentre=0, ltv=0, nsub=1, pattern=False):
+    """edition-4 message, uncompressed; data section all zero, or a fixed byte pattern
+    (so that decoded values depend on the field widths in force)"""
     sec1 = (22).to_bytes(3, 'big') + bytes([0]) + centre.to_bytes(2, 'big') + subcentre.to_bytes(2, 'big') + \
         bytes([0, 0, 0, 0, 0, mtv, ltv]) + (2020).to_bytes(2, 'big') + bytes([1, 1, 0, 0, 0])
     body3 = bytes([0]) + nsub.to_bytes(2, 'big') + bytes([0x80]) + b''.join(
         (((i // 100000) << 14) | ((i // 1000 % 100) << 8) | (i % 1000)).to_bytes(2, 'big') for i in ids)
     sec3 = (len(body3) + 3).to_bytes(3, 'big') + body3
-    body4 = bytes([0]) + bytes(nbytes_data)
+    body4 = bytes([0]) + (bytes((i * 37 + 11) % 256 for i in range(nbytes_data)) if pattern else bytes(nbytes_data))
     sec4 = (len(body4) + 3).to_bytes(3, 'big') + body4
     total = 8 + len(sec1) + len(sec3) + len(sec4) + 4
     return b'BUFR' + total.to_bytes(3, 'big') + bytes([4]) + sec1 + sec3 + sec4 + b'7777'
@@ -139,34 +140,81 @@ def first_path(msg):
     return '001001'
 
 
+def in_child(fn):
+    """run fn() in a forked child of this (so far idle) interpreter: a process that has
+    processed NOTHING before; returns its JSON result"""
+    import os
+    r, w = os.pipe()
+    pid = os.fork()
+    if pid == 0:
+        try:
+            os.close(r)
+            try:
+                res = fn()
+            except BaseException as e:      # noqa
+                res = {'crash': repr(e)}
+            os.write(w, json.dumps(res).encode())
+        finally:
+            os._exit(0)
+    os.close(w)
+    buf = b''
+    while True:
+        chunk = os.read(r, 65536)
+        if not chunk:
+            break
+        buf += chunk
+    os.close(r)
+    os.waitpid(pid, 0)
+    return json.loads(buf.decode() or '{"crash": "no output"}')
+
+
 def reference(item):
-    """all observations of one item, each on a fresh decode, in THIS (fresh) process"""
+    """all observations of one item; EACH observation in its own fresh process (fork of an
+    interpreter that has only imported pybufrkit), so no reference depends on an earlier one"""
     from pybufrkit.decoder import Decoder
     from pybufrkit.encoder import Encoder
+    import pybufrkit.renderer, pybufrkit.dataquery, pybufrkit.tables   # noqa: imported, nothing processed
     data = bytes.fromhex(item['hex'])
-    out = {}
-    dec = Decoder(compiled_template_cache_max=5)
-    msg, err = decode(dec, data)
-    out['tg_keys_after_decode'] = tg_keys_now()
-    out['ct_keys_after_decode'] = ct_keys_of(dec)
-    out['decode'] = err if err else digest_decoded(msg)
-    msg_i, err_i = decode(Decoder(), data, info_only=True)
-    out['info'] = err_i if err_i else 'ok'
-    out['tg_keys_after_info'] = tg_keys_now()
-    if err:
+
+    def first():
+        out = {}
+        dec = Decoder(compiled_template_cache_max=5)
+        msg, err = decode(dec, data)
+        out['tg_keys_after_decode'] = tg_keys_now()
+        out['ct_keys_after_decode'] = ct_keys_of(dec)
+        out['decode'] = err if err else digest_decoded(msg)
+        if not err:
+            out['path'] = first_path(msg)
         return out
-    out['path'] = first_path(msg)
+
+    def info():
+        msg_i, err_i = decode(Decoder(), data, info_only=True)
+        return {'info': err_i if err_i else 'ok', 'tg_keys_after_info': tg_keys_now()}
+
+    out = in_child(first)
+    out.update(in_child(info))
+    if out['decode'].startswith('err'):
+        return out
+
+    def kind_fn(kind):
+        def f():
+            m2, e2 = decode(Decoder(), data)
+            return {kind: e2 if e2 else observe_on(kind, m2, out['path'])}
+        return f
     for kind in RENDER_KINDS + ('query',):
-        m2, e2 = decode(Decoder(), data)
-        out[kind] = e2 if e2 else observe_on(kind, m2, out['path'])
-    m3, e3 = decode(Decoder(), data)
-    enc = Encoder(compiled_template_cache_max=5)
-    before = tg_keys_now()
-    dg, emsg = encode(enc, m3)
-    out['encode'] = dg
-    if emsg is not None:
-        out['enc_tg_key'] = tg_token(emsg.table_group_key)
-        out['enc_ct_keys'] = ct_keys_of(enc)
+        out.update(in_child(kind_fn(kind)))
+
+    def enc():
+        res = {}
+        m3, e3 = decode(Decoder(), data)
+        e = Encoder(compiled_template_cache_max=5)
+        dg, emsg = encode(e, m3)
+        res['encode'] = dg
+        if emsg is not None:
+            res['enc_tg_key'] = tg_token(emsg.table_group_key)
+            res['enc_ct_keys'] = ct_keys_of(e)
+        return res
+    out.update(in_child(enc))
     return out
 
 
